@@ -337,6 +337,15 @@ theorem gen_unwrap_ops : unwrapOpsModel = Gen.LogQLOps.unwrapOps := unwrapOps_eq
 theorem gen_agg_ops : aggOpsModel = Gen.LogQLOps.aggOps := aggOps_eq
 theorem gen_shortcut_ops : shortcutOpsModel = Gen.LogQLOps.shortcutOps := shortcutOps_eq
 theorem gen_cmp_ops : cmpOpsModel = Gen.LogQLOps.cmpOps := cmpOps_eq
+/-- planner_quantile.go: every text `QuantilePlanner.Process` writes is the model's (`quantCols`), the range goes into the bucket
+    column and the parsed parameter into `quantile(%f)`, and `planQuantileOverTime` wires `Param` to the script's parameter and
+    `Duration` to the script's range -/
+theorem gen_quantile_ops :
+    quantileTextsModel = Gen.QuantileOps.texts ∧
+    Gen.QuantileOps.fmtArgs = [("intDiv(quant_a.timestamp_ns, %d) * %[1]d", "p.Duration.Nanoseconds()"), ("quantile(%f)(value)", "p.Param")] ∧
+    Gen.QuantileOps.wiring = [("Main", "p.samplesPlanner"), ("Param", "strconv.ParseFloat(script.Param, 64)"),
+      ("Duration", "time.ParseDuration(script.Time + script.TimeUnit)")] :=
+  ⟨quantileTexts_eq, quantileArgs_eq.1, quantileArgs_eq.2⟩
 
 /-! ## the whole plan -/
 
